@@ -175,7 +175,9 @@ PLANS["C20"] = dict(mc=[], no_replay=True, level="other", bins=("fr-replay",), c
                 "stands for) on the recorded invocations: the binary starts, every module command has --help, and the message printed by "
                 "`tx fundraising <cmd> <args> --generate-only` equals the typed input field by field.",
     assumptions=["name resolution by reflection at process start is observed, not modelled", "default build of the working tree only"])
-PLANS["C14"] = dict(mc=[], gen=GEN_MANY + scale(GEN_GENERAL, 0.3), check="C14", replicas=5, processes=2,
+# (with three registered listeners in one generator: the order in which listeners run is part of what must be reproducible)
+PLANS["C14"] = dict(mc=[], gen=GEN_MANY + scale(GEN_GENERAL, 0.3) + [dict(g, name=g["name"] + "D", num=20) for g in PLANS["C17"]["gen"][:1]],
+                    check="C14", replicas=5, processes=2,
                     assumptions=["C14 is a 2-safety property of the implementation: the specification is deterministic by construction (every Do operator is a function), so there is no design-level model checking; the clause compares replicas of real executions"])
 PLANS["ALL"] = dict(mc=[], gen=GEN_GENERAL, check="ALL")
 
